@@ -245,6 +245,7 @@ func (s *metricSchemaStore) Flush() error {
 	if err != nil {
 		return err
 	}
+	verifGate("schemastore.flushed")
 
 	s.lock.Lock()
 	// mark schema persisted
